@@ -48,7 +48,10 @@ MANIFEST = {
             'model with full observation after each step; all mutator '
             'histories up to depth 4 (quick) / 7 (thorough) over 3 tasks x 2 '
             'priorities are enumerated exhaustively; OscScore and an '
-            'exit-action queue are checked as consumers.',
+            'exit-action queue are checked as consumers; the non-real-time '
+            'scheduler is checked as a collection of its own: tasks pending '
+            'at main.reset() never run, also not after tempo changes re-key '
+            'their clock.',
     'note': 'Trusted: the reference model (sorted list by (prio, seq)); '
             'sequential use only (TaskQueue is documented not thread safe).',
 }
